@@ -38,7 +38,7 @@ func (it *item) srcArgs() (src string, args []string) {
 	case "genum":
 		c := it.gc
 		src = c.source(it.pkg)
-		args = []string{"-in", "defs.go", "-types", strings.Join(c.typeNames(), ","),
+		args = []string{"-in", it.defName(), "-types", strings.Join(c.typeNames(), ","),
 			"-json=" + strconv.FormatBool(c.opts[0]), "-yaml=" + strconv.FormatBool(c.opts[1]), "-text=" + strconv.FormatBool(c.opts[2]),
 			"-caseInsensitive=" + strconv.FormatBool(c.opts[3]), "-disableTraits=" + strconv.FormatBool(c.opts[4])}
 		if p := c.parsable(); len(p) > 0 {
@@ -47,13 +47,13 @@ func (it *item) srcArgs() (src string, args []string) {
 	case "gerror":
 		c := it.ec
 		src = c.source(it.pkg)
-		args = []string{"-in-file", "defs.go", "-types", strings.Join(c.typeNames(), ",")}
+		args = []string{"-in-file", it.defName(), "-types", strings.Join(c.typeNames(), ",")}
 		if c.skip {
 			args = append(args, "-skipConvertGen")
 		}
 	case "gsort":
 		src = it.sc.source(it.pkg)
-		args = []string{"-in-file", "defs.go", "-types", strings.Join(it.sc.typeNames(), ",")}
+		args = []string{"-in-file", it.defName(), "-types", strings.Join(it.sc.typeNames(), ",")}
 	}
 	return
 }
@@ -81,7 +81,7 @@ func (it *item) prevArgs() []string {
 		if c.prev == "allon" {
 			o = [5]bool{true, true, true, true, false}
 		}
-		args := []string{"-in", "defs.go", "-types", strings.Join(c.allTypeNames(), ","),
+		args := []string{"-in", it.defName(), "-types", strings.Join(c.allTypeNames(), ","),
 			"-json=" + strconv.FormatBool(o[0]), "-yaml=" + strconv.FormatBool(o[1]), "-text=" + strconv.FormatBool(o[2]),
 			"-caseInsensitive=" + strconv.FormatBool(o[3]), "-disableTraits=" + strconv.FormatBool(o[4])}
 		if p := c.parsable(); len(p) > 0 {
@@ -93,7 +93,7 @@ func (it *item) prevArgs() []string {
 		if c.prev == "" {
 			return nil
 		}
-		args := []string{"-in-file", "defs.go", "-types", strings.Join(c.allTypeNames(), ",")}
+		args := []string{"-in-file", it.defName(), "-types", strings.Join(c.allTypeNames(), ",")}
 		if c.skip && c.prev != "noskip" {
 			args = append(args, "-skipConvertGen")
 		}
@@ -102,7 +102,7 @@ func (it *item) prevArgs() []string {
 		if it.sc.prev == "" {
 			return nil
 		}
-		return []string{"-in-file", "defs.go", "-types", strings.Join(it.sc.allTypeNames(), ",")}
+		return []string{"-in-file", it.defName(), "-types", strings.Join(it.sc.allTypeNames(), ",")}
 	}
 	return nil
 }
@@ -119,31 +119,112 @@ func (w *world) inProcess(it *item, dir string) (err error) {
 		return err
 	}
 	defer os.Chdir(old)
-	in := filepath.Join(dir, "defs.go")
-	out := filepath.Join(dir, "defs."+it.gen+".go")
+	v := newGenValue(it, filepath.Join(dir, it.defName()), filepath.Join(dir, it.genName()))
+	if v == nil {
+		return fmt.Errorf("unknown generator")
+	}
+	if err := v.parse(); err != nil {
+		return err
+	}
+	return v.write()
+}
+
+// genValue is ONE value of a generator's exported Generate type.
+type genValue struct {
+	parse, write func() error
+	setTypes     func([]string)
+	types        []string
+}
+
+func newGenValue(it *item, in, out string) *genValue {
 	switch it.gen {
 	case "genum":
 		c := it.gc
-		g := genumgen.Generate{InFile: in, OutFile: out, Types: c.typeNames(), GenJSON: c.opts[0], GenYAML: c.opts[1], GenText: c.opts[2],
+		g := &genumgen.Generate{InFile: in, OutFile: out, Types: c.typeNames(), GenJSON: c.opts[0], GenYAML: c.opts[1], GenText: c.opts[2],
 			CaseInsensitive: c.opts[3], DisableTraits: c.opts[4], ParsableByTraits: c.parsable()}
-		if err := g.Parse(); err != nil {
-			return err
-		}
-		return g.Write()
+		return &genValue{parse: g.Parse, write: g.Write, setTypes: func(t []string) { g.Types = t }, types: c.typeNames()}
 	case "gerror":
-		g := gerrorgen.Generate{InFile: in, OutFile: out, Types: it.ec.typeNames(), SkipConvertGen: it.ec.skip}
-		if err := g.Parse(); err != nil {
-			return err
-		}
-		return g.Write()
+		g := &gerrorgen.Generate{InFile: in, OutFile: out, Types: it.ec.typeNames(), SkipConvertGen: it.ec.skip}
+		return &genValue{parse: g.Parse, write: g.Write, setTypes: func(t []string) { g.Types = t }, types: it.ec.typeNames()}
 	case "gsort":
-		g := gsortgen.Generate{InFile: in, OutFile: out, Types: it.sc.typeNames()}
-		if err := g.Parse(); err != nil {
-			return err
-		}
-		return g.Write()
+		g := &gsortgen.Generate{InFile: in, OutFile: out, Types: it.sc.typeNames()}
+		return &genValue{parse: g.Parse, write: g.Write, setTypes: func(t []string) { g.Types = t }, types: it.sc.typeNames()}
 	}
-	return fmt.Errorf("unknown generator")
+	return nil
+}
+
+// reuseVsCLI keeps ONE generator value and runs Parse+Write on it three times, then once more
+// after a Parse that fails half-way (a type that does not exist appended to -types); every file
+// it writes must equal what a separate process writes for the definition.
+func (w *world) reuseVsCLI(header string) (res string) {
+	it, err := parseHeader(header)
+	if err != nil {
+		return "bad-op"
+	}
+	w.mu.Lock()
+	defer w.mu.Unlock()
+	base := filepath.Join(w.root, "m", fmt.Sprintf("u%d", w.nPkg))
+	w.nPkg++
+	defer func() {
+		if os.Getenv("VERIF_KEEP") == "" {
+			os.RemoveAll(base)
+		}
+	}()
+	defer func() {
+		if r := recover(); r != nil {
+			res = "differs:panic-on-reuse"
+		}
+	}()
+	it.pkg = "rp"
+	src, args := it.srcArgs()
+	dirs := [2]string{filepath.Join(base, "cli", "rp"), filepath.Join(base, "in", "rp")}
+	for _, d := range dirs {
+		os.MkdirAll(d, 0o755)
+		os.WriteFile(filepath.Join(d, it.defName()), []byte(src), 0o644)
+	}
+	cmd := exec.Command(w.bins[it.gen], args...)
+	cmd.Dir = dirs[0]
+	cmd.Env = append(append([]string{}, w.env...), "PWD="+dirs[0], "GOFILE="+it.defName(), "GOPACKAGE=rp")
+	w.genRuns++
+	_, cliErr := cmd.CombinedOutput()
+	ref, _ := os.ReadFile(filepath.Join(dirs[0], it.genName()))
+	old, _ := os.Getwd()
+	if err := os.Chdir(dirs[1]); err != nil {
+		return "bad-op"
+	}
+	defer os.Chdir(old)
+	v := newGenValue(it, filepath.Join(dirs[1], it.defName()), filepath.Join(dirs[1], it.genName()))
+	round := func(label string) string {
+		w.genRuns++
+		err := v.parse()
+		if err == nil {
+			err = v.write()
+		}
+		if (err != nil) != (cliErr != nil) {
+			return "differs:" + label + ":error-in-one-mode"
+		}
+		if err != nil {
+			return ""
+		}
+		got, _ := os.ReadFile(filepath.Join(dirs[1], it.genName()))
+		if !bytes.Equal(got, ref) {
+			return "differs:" + label
+		}
+		return ""
+	}
+	for _, label := range []string{"first-use", "second-use-of-one-generator-value", "third-use-of-one-generator-value"} {
+		if r := round(label); r != "" {
+			return r
+		}
+	}
+	v.setTypes(append(append([]string{}, v.types...), "NoSuchTypeAnywhere"))
+	w.genRuns++
+	_ = v.parse() // fails for gerror and gsort (type not found); genum only finds no values for it
+	v.setTypes(v.types)
+	if r := round("use-after-failed-parse"); r != "" {
+		return r
+	}
+	return "same"
 }
 
 func (w *world) observe14(header string, k int) *c14obs {
@@ -163,17 +244,26 @@ func (w *world) observe14(header string, k int) *c14obs {
 		}
 	}()
 	src, args := it.srcArgs()
-	genName := "defs." + it.gen + ".go"
+	genName := it.genName()
 	mk := func(name string) string {
 		d := filepath.Join(base, name, "rp")
 		os.MkdirAll(d, 0o755)
-		os.WriteFile(filepath.Join(d, "defs.go"), []byte(src), 0o644)
+		os.WriteFile(filepath.Join(d, it.defName()), []byte(src), 0o644)
 		return d
 	}
 	cli := func(dir string) error {
 		cmd := exec.Command(w.bins[it.gen], args...)
 		cmd.Dir = dir
-		cmd.Env = append(append([]string{}, w.env...), "PWD="+dir, "GOFILE=defs.go", "GOPACKAGE=rp")
+		cmd.Env = append(append([]string{}, w.env...), "PWD="+dir, "GOFILE="+it.defName(), "GOPACKAGE=rp")
+		if strings.Contains(it.header, " nopwd=t") {
+			// NOT how go generate starts a generator (it always sets PWD): relative -in path
+			cmd.Env = append(append([]string{}, w.env...), "GOFILE="+it.defName(), "GOPACKAGE=rp")
+			for i, e := range cmd.Env {
+				if strings.HasPrefix(e, "PWD=") {
+					cmd.Env[i] = "VERIF_NO_PWD=1"
+				}
+			}
+		}
 		w.mu.Lock()
 		w.genRuns++
 		w.mu.Unlock()
@@ -244,7 +334,7 @@ func (w *world) observe14(header string, k int) *c14obs {
 		d := mk("prev")
 		cmd := exec.Command(w.bins[it.gen], prev...)
 		cmd.Dir = d
-		cmd.Env = append(append([]string{}, w.env...), "PWD="+d, "GOFILE=defs.go", "GOPACKAGE=rp")
+		cmd.Env = append(append([]string{}, w.env...), "PWD="+d, "GOFILE="+it.defName(), "GOPACKAGE=rp")
 		w.mu.Lock()
 		w.genRuns++
 		w.mu.Unlock()
@@ -328,13 +418,13 @@ func (w *world) inprocVsCLI(header string) string {
 	}()
 	it.pkg = "rp"
 	src, args := it.srcArgs()
-	genName := "defs." + it.gen + ".go"
+	genName := it.genName()
 	var outs [2][]byte
 	var errs [2]error
 	for k, name := range []string{"in", "cli"} {
 		d := filepath.Join(base, name, "rp")
 		os.MkdirAll(d, 0o755)
-		os.WriteFile(filepath.Join(d, "defs.go"), []byte(src), 0o644)
+		os.WriteFile(filepath.Join(d, it.defName()), []byte(src), 0o644)
 		w.mu.Lock()
 		w.genRuns++
 		if k == 0 {
@@ -344,7 +434,7 @@ func (w *world) inprocVsCLI(header string) string {
 		if k == 1 {
 			cmd := exec.Command(w.bins[it.gen], args...)
 			cmd.Dir = d
-			cmd.Env = append(append([]string{}, w.env...), "PWD="+d, "GOFILE=defs.go", "GOPACKAGE=rp")
+			cmd.Env = append(append([]string{}, w.env...), "PWD="+d, "GOFILE="+it.defName(), "GOPACKAGE=rp")
 			_, errs[k] = cmd.CombinedOutput()
 		}
 		outs[k], _ = os.ReadFile(filepath.Join(d, genName))
@@ -394,6 +484,9 @@ func (m *impl14) Exec(line string) string {
 	}
 	if len(ws) < 2 || ws[0] != "go_" {
 		return "bad-op"
+	}
+	if ws[1] == "reuse" && len(ws) >= 3 {
+		return m.w.reuseVsCLI("case go_ " + strings.Join(ws[2:], " "))
 	}
 	if ws[1] == "inproc" && len(ws) >= 3 {
 		return m.w.inprocVsCLI("case go_ " + strings.Join(ws[2:], " "))
@@ -456,8 +549,8 @@ func run14(f *hx.Flags, w *world) {
 		if len(ws) > 1 && ws[1] == "repeat" {
 			k = "C14:repeat:" + d.Impl
 		}
-		if len(ws) > 2 && ws[1] == "inproc" {
-			return "C14:" + ws[2] + ":inproc:" + d.Impl
+		if len(ws) > 2 && (ws[1] == "inproc" || ws[1] == "reuse") {
+			return "C14:" + ws[2] + ":" + ws[1] + ":" + d.Impl
 		}
 		if len(d.Case.Lines) > 0 {
 			k = strings.Replace(k, "C14:", "C14:"+strings.Fields(d.Case.Lines[0])[2]+":", 1)
@@ -479,11 +572,11 @@ func run14(f *hx.Flags, w *world) {
 	add := func(c hx.Case) { queue = append(queue, c) }
 	// gsort: >= 2 sorters per struct, value and pointer, two structs
 	gs := []*gsortCase{
-		{two: true, fields: []gsortField{{"A", "int", []string{"ByA,1", "*ByAP,2"}}, {"B", "string", []string{"ByA,2", "*ByAP,1", "Zed,1"}}, {"C", "bool", []string{"Mid,1"}}}},
+		{two: true, file: "sort", fields: []gsortField{{"A", "int", []string{"ByA,1", "*ByAP,2"}}, {"B", "string", []string{"ByA,2", "*ByAP,1", "Zed,1"}}, {"C", "bool", []string{"Mid,1"}}}},
 		{fields: []gsortField{{"A", "int", []string{"ByA,1"}}, {"R", "rank", []string{"*ByR,1,String()"}}}},
 	}
-	gs = append(gs, &gsortCase{two: true, only1: true, prev: "moretypes", fields: []gsortField{{"A", "int", []string{"ByA,1", "*ByAP,1"}}, {"B", "string", []string{"ByA,2"}}}})
-	for i := 0; i < r.N(nrand); i++ {
+	gs = append(gs, &gsortCase{two: true, only1: true, prev: "moretypes", file: "gsort", fields: []gsortField{{"A", "int", []string{"ByA,1", "*ByAP,1"}}, {"B", "string", []string{"ByA,2"}}}})
+	for i := 0; i < r.N(nrand) && g.thorough; i++ {
 		c := g.randomGsort()
 		if g.thorough && i%2 == 0 {
 			c.two, c.only1, c.prev = true, true, "moretypes"
@@ -520,11 +613,11 @@ func run14(f *hx.Flags, w *world) {
 	}
 	// gerror: several tagged fields, two types
 	ge := []*gerrorCase{
-		{two: true, fields: []gerrField{{"Zeta", "int", "pc"}, {"Alpha", "string", "p"}, {"Mid", "dur", "c"}, {"Beta", "status", "n:Shown:pc"}, {"Plain", "string", ""}}},
+		{two: true, file: "error", fields: []gerrField{{"Zeta", "int", "pc"}, {"Alpha", "string", "p"}, {"Mid", "dur", "c"}, {"Beta", "status", "n:Shown:pc"}, {"Plain", "string", ""}}},
 		{skip: true, custom: true, fields: []gerrField{{"B", "int", "c"}, {"A", "int", "c"}}},
 	}
-	ge = append(ge, &gerrorCase{two: true, only1: true, prev: "moretypes", fields: []gerrField{{"Code", "int", "pc"}, {"Also", "string", "c"}}})
-	for i := 0; i < r.N(nrand); i++ {
+	ge = append(ge, &gerrorCase{two: true, only1: true, prev: "moretypes", file: "gerror", fields: []gerrField{{"Code", "int", "pc"}, {"Also", "string", "c"}}})
+	for i := 0; i < r.N(nrand) && g.thorough; i++ {
 		c := g.randomGerror()
 		if g.thorough && i%2 == 0 {
 			c.two, c.only1, c.prev = true, true, "moretypes"
@@ -553,9 +646,9 @@ func run14(f *hx.Flags, w *world) {
 	}
 	// genum: two duplicate groups with traits, two active imports, two types
 	gn := []*genumCase{
-		{n: 3, under: "int", shape: "dup2", traits: cols("ustr,dur,fmode"), opts: [5]bool{true, true, true, false, false}},
-		{n: 3, under: "uint8", shape: "two", traits: cols("dur+p,fmode,label"), opts: [5]bool{true, true, true, true, false}},
-		{n: 17, under: "int", shape: "dup", opts: [5]bool{true, false, true, false, false}},
+		{n: 3, under: "int", shape: "dup2", file: "enum", traits: cols("ustr,dur,fmode"), opts: [5]bool{true, true, true, false, false}},
+		{n: 3, under: "uint8", shape: "two", file: "num", traits: cols("dur+p,fmode,label"), opts: [5]bool{true, true, true, true, false}},
+		{n: 17, under: "int", shape: "dup", file: "colors", opts: [5]bool{true, false, true, false, false}},
 	}
 	// several duplicated values per enum: aliases that become the primary name without a trait row
 	// of their own (AAlias<i>), aliases that do not (AZed<i>), next to values with a single name
@@ -596,11 +689,19 @@ func run14(f *hx.Flags, w *world) {
 	}
 	// names that differ only by case under -caseInsensitive: in the domain only if the generator
 	// handles them (its output builds); the pinned generator writes two equal cases -> a C13 matter
-	collide := &genumCase{n: 7, under: "int", shape: "collide", traits: cols("ustr"), opts: [5]bool{true, true, true, true, false}}
+	collide := &genumCase{n: 7, under: "int", shape: "collide", file: "genum", traits: cols("ustr"), opts: [5]bool{true, true, true, true, false}}
 	{
 		ls := lines14(collide.header(), k)
 		kOf[ls[0]] = k
 		add(hx.Case{Lines: ls, Domain: false, Nontrivial: true, Tags: []string{"genum", "genum:collide"}})
+	}
+	// out of domain: the CLI started WITHOUT PWD in its environment (go generate always sets it):
+	// the source path stays relative, and the pinned FindFAST then takes enum.genum.go for enum.go
+	{
+		c := &genumCase{n: 2, under: "int", shape: "plain", file: "enum", opts: [5]bool{true, true, true, false, false}}
+		ls := lines14(c.header()+" nopwd=t", 1)
+		kOf[ls[0]] = 1
+		add(hx.Case{Lines: ls, Domain: false, Nontrivial: true, Tags: []string{"ood"}})
 	}
 	// observe the cases with a few workers (the in-process runs are serialised: they chdir)
 	{
@@ -663,8 +764,17 @@ func run14(f *hx.Flags, w *world) {
 		seq = append(seq, others[1:]...)
 		seq = append(seq, pair("pb0"))
 		ls := []string{"case go_ session"}
+		isOther := map[string]bool{}
+		for i, d := range others {
+			isOther[d] = i < 3 || i%4 == 0
+		}
 		for _, d := range seq {
-			ls = append(ls, "go_ inproc "+d)
+			if isOther[d] {
+				// one generator value used three times and once more after a failed Parse
+				ls = append(ls, "go_ reuse "+d)
+			} else {
+				ls = append(ls, "go_ inproc "+d)
+			}
 		}
 		r.Add(hx.Case{Lines: ls, Domain: true, Nontrivial: true, Tags: []string{"session"}})
 	}
